@@ -100,7 +100,13 @@ class World:
                  mk_amount(r['f'], 'int' if r['f'][1] == 1 and r['o'][1] == 1 and r['f'][0] != 1 else 'frac'),
                  mk_amount(r['o'], 'int' if r['f'][1] == 1 and r['o'][1] == 1 and r['f'][0] != 1 else 'dec')) for r in wj['ttable']]
         if rows:
-            self.types['T'].register_converter(TableConverter(rows))
+            # two converters on the type: the older one knows the temperature-like rows, the newer one only the row of
+            # tx - conversions between the other units are answered by the OLDER one after the newer one declined
+            old_rows = [r for r, w_ in zip(rows, wj['ttable']) if 'tx' not in (w_['from'], w_['to'])]
+            new_rows = [r for r, w_ in zip(rows, wj['ttable']) if 'tx' in (w_['from'], w_['to'])]
+            self.types['T'].register_converter(TableConverter(old_rows))
+            if new_rows:
+                self.types['T'].register_converter(TableConverter(new_rows))
         # every symbol is offered once more with another definition: the attempt is refused (C15 / C16) and the world
         # stays what it is - from here on units are fetched through their type's own directory
         for sym, u in list(self.units.items()):
